@@ -192,10 +192,6 @@ class VDatetime(_dt.datetime):
         return BASE + _dt.timedelta(seconds=_Clock.t)
 
 
-def ev_ops(ops):
-    return [tuple(o) for o in ops]
-
-
 class C09(Check):
     PID = "C09"
     HEADER = "From Verif Require Import C09.Model."
@@ -206,8 +202,10 @@ class C09(Check):
             "off/2..10 s (integer seconds, read back from the constructed object in microseconds); histories of 1..12 calls "
             "(thorough: up to 40) over start, tick(0..3), record_error, heartbeat, check_timeouts, renew(None/0/1/2/5, reset_errors), "
             "trigger_apoptosis, terminate, reset, clock advance 0..10 s (limits are hit exactly); ~3% malformed histories (negative "
-            "cost/amount, max_operations 0, threshold 0). Exhaustive: every history of depth <=3 (quick) / <=5 (thorough) over a "
-            "10-call alphabet on 2 (quick) / 3 (thorough) small configurations. non-trivial = at least one phase transition; "
+            "cost/amount, max_operations 0, threshold 0). Exhaustive over a 10-call alphabet (start, tick(1), record_error, heartbeat, "
+            "check_timeouts, renew(), trigger_apoptosis, terminate, reset, advance 5 s), every call observed: all histories of depth "
+            "<=3 on 2 small configurations (quick); plus all of depth 5 (alphabet without heartbeat) on one and of depth 4 on two more configurations (thorough). "
+            "non-trivial = at least one phase transition; "
             "distinct by case content")
     LEVEL_TEXT = ("Coq theorems over all configurations, all states / all histories (no bound on length) about a hand-written "
                   "executable model of every public method of Telomere, for an arbitrary depletion/error-rate classifier: legal "
@@ -238,8 +236,8 @@ class C09(Check):
     def __init__(self, tier, seed):
         super().__init__(tier, seed)
         self.kind = None
+        self.autostart_reacquires = False
         self.hangs_seen = 0
-        self.skipped_near_threshold = 0
 
     # -- translator --------------------------------------------------------
     def translate(self):
@@ -249,12 +247,20 @@ class C09(Check):
         except SyntaxError as e:
             kind, graph, problems = "UnrecognisedLock", [("?syntax", True, ["?syntax-error"])], [f"syntax error: {e}"]
         self.kind = kind
+        self.autostart_reacquires = self._autostart_reacquires(kind, graph)
         common.write_if_changed(common.GEN / "Gen_C09.v", gen_file_text(kind, graph, problems))
         self.extra_cov["lock_kind"] = kind
         self.extra_cov["lock_graph_methods"] = len(graph)
         self.extra_cov["lock_methods_acquiring"] = sorted(m for (m, a, _c) in graph if a)
         if problems:
             self.notes.append("translator did not recognise: " + " | ".join(problems))
+
+    @staticmethod
+    def _autostart_reacquires(kind, graph):
+        """tick holds a non-reentrant lock and calls start(), which acquires it: the model then predicts the hang"""
+        g = {m: (a, cs) for (m, a, cs) in graph}
+        return (kind == "NonReentrant" and g.get("tick", (False, []))[0] and "start" in g.get("tick", (False, []))[1]
+                and g.get("start", (False, []))[0])
 
     # -- generation --------------------------------------------------------
     ALPHABET = [["start"], ["tick", 1], ["err"], ["hb"], ["check"], ["renew", None, True],
@@ -321,16 +327,19 @@ class C09(Check):
         return out
 
     def exhaustive_cases(self):
-        cfgs = [{"max_ops": 2, "thr": 2, "renew": True, "life_s": 10, "idle_s": 5},
-                {"max_ops": 3, "thr": 1, "renew": False, "life_s": None, "idle_s": None}]
-        depth = 3
+        A = {"max_ops": 2, "thr": 2, "renew": True, "life_s": 10, "idle_s": 5}
+        B = {"max_ops": 3, "thr": 1, "renew": False, "life_s": None, "idle_s": None}
+        C = {"max_ops": 11, "thr": 3, "renew": True, "life_s": None, "idle_s": 5}
+        # every call is observed, so a history of depth d also checks all its prefixes
+        full = self.ALPHABET
+        no_hb = [o for o in full if o[0] != "hb"]
+        plan = [(A, [1, 2, 3], full), (B, [1, 2, 3], full)]
         if self.tier != "quick":
-            cfgs.append({"max_ops": 11, "thr": 3, "renew": True, "life_s": None, "idle_s": 5})
-            depth = 5
+            plan += [(A, [5], no_hb), (B, [4], full), (C, [4], full)]
         out = []
-        for cfg in cfgs:
-            for d in range(1, depth + 1):
-                for combo in itertools.product(self.ALPHABET, repeat=d):
+        for cfg, depths, alphabet in plan:
+            for d in depths:
+                for combo in itertools.product(alphabet, repeat=d):
                     out.append({"cfg": dict(cfg), "ops": [list(o) for o in combo]})
         return out
 
@@ -403,7 +412,7 @@ class C09(Check):
                         obs.append([-999])
                         steps.append({"op": o, "hang": True, "before": before, "t": t_before})
                         break
-                    except ZeroDivisionError as e:
+                    except ZeroDivisionError:
                         rc, raised = -2, "ZeroDivisionError"
                     except Exception as e:  # any other exception class
                         rc, raised = -4, type(e).__name__
@@ -436,10 +445,11 @@ class C09(Check):
         # the lock kind the translator found in the source decides whether the model predicts the hang
         if self.kind is None:
             try:
-                self.kind = lock_structure((common.REPO / SRC).read_text())[0]
+                self.kind, graph, _p = lock_structure((common.REPO / SRC).read_text())
+                self.autostart_reacquires = self._autostart_reacquires(self.kind, graph)
             except Exception:
-                self.kind = "UnrecognisedLock"
-        v = "(mkVariant false false)" if self.kind == "NonReentrant" else "current"
+                self.kind, self.autostart_reacquires = "UnrecognisedLock", False
+        v = "(mkVariant false false)" if self.autostart_reacquires else "current"
         return ctuple(v, c, clist(ops))
 
     # -- the property, on the implementation's trace ------------------------
